@@ -21,28 +21,34 @@ LIVE = b"live-data"
     + [{"flavour": fl, "kind": k, "d": 2, "one": True, "_pre": "m1 == 0 and m2 == 0"} for fl in ("sync", "async") for k in ("101", "connect")],
     thorough=[{"flavour": fl, "kind": k, "d": d, "one": o} for fl in ("sync", "async") for k in ("101", "connect")
               for d in range(0, 7) for o in (False, True)],
-    example=dict(cut=2, m0=1, m1=2, m2=0),
-    require=("trailing-captured", "data-after-head-read", "live-data-read"),
+    example=dict(cut=2, m0=1, m1=2, m2=0, st=1, drain=1),
+    require=("trailing-captured", "data-after-head-read", "live-data-read", "body-drained-first"),
     timeout={"quick": 200, "thorough": 900},
-    symbolic="cut: where (relative to the end of the head) the server's bytes are split into reads; m0..m2: max_bytes of the caller's first three reads, each from {1, 2, 64}; one-byte-per-read mode",
-    bounds="post-head data of d bytes (shard, 0..6), one cut in [head_end-1, head_end+d] or one byte per read, three sized reads then large reads, 101 and CONNECT-2xx, sync and async",
+    symbolic="cut: where (relative to the end of the head) the server's bytes are split into reads; m0..m2: max_bytes of the caller's first three reads, each from {1, 2, 64}; one-byte-per-read mode; st: the 2xx status of the CONNECT reply from {200, 201, 204, 299}; drain: whether the caller reads the (empty) response body to its end before it uses the network stream",
+    bounds="post-head data of d bytes (shard, 0..6), one cut in [head_end-1, head_end+d] or one byte per read, three sized reads then large reads, 101 and CONNECT with four 2xx statuses, body drained first or not, sync and async",
     outside="max_bytes values outside {1,2,64} (covered for every value by the kernel obligation); more than one cut inside the post-head data",
     stubs=("simulated backend and HTTP/1.1 server model; h11 native",),
 )
-def handover(cut: int, m0: int, m1: int, m2: int) -> None:
+def handover(cut: int, m0: int, m1: int, m2: int, st: int, drain: int) -> None:
     """
     pre: 0 <= cut <= 8
     pre: 0 <= m0 <= 2 and 0 <= m1 <= 2 and 0 <= m2 <= 2
+    pre: 0 <= st <= 3 and 0 <= drain <= 1
     post: _
     """
     d = shard("d", 3)
     c = ladder(cut, 0, d + 1)
     ms = [ladder(m, 0, 2) for m in (m0, m1, m2)]
-    with concrete(c, *ms):
-        _handover(c, ms)
+    s_i = ladder(st, 0, 3 if shard("kind", "101") == "connect" else 0)
+    dr = ladder(drain, 0, 1)
+    with concrete(c, s_i, dr, *ms):
+        _handover(c, ms, CONNECT_STATUS[s_i], bool(dr))
 
 
-def _handover(c: int, ms: list[int]) -> None:
+CONNECT_STATUS = ((200, b"OK"), (201, b"Created"), (204, b"No Content"), (299, b"Tunnel"))
+
+
+def _handover(c: int, ms: list[int], cstatus: tuple[int, bytes], drain: bool) -> None:
     is_async = shard("flavour", "sync") == "async"
     kind = shard("kind", "101")
     d = shard("d", 3)
@@ -53,7 +59,7 @@ def _handover(c: int, ms: list[int]) -> None:
 
     def responder(req: typing.Any, n: int) -> Resp:
         if req.method == b"CONNECT":
-            return Resp(status=200, reason=b"OK", framing="none", trailing=data)
+            return Resp(status=cstatus[0], reason=cstatus[1], framing="none", trailing=data)
         if req.header(b"Upgrade"):
             return Resp(status=101, reason=b"Switching Protocols",
                         headers=[(b"Connection", b"upgrade"), (b"Upgrade", b"testproto")],
@@ -80,9 +86,15 @@ def _handover(c: int, ms: list[int]) -> None:
     if not P.check(o.ok, "upgrade-response-returned", lambda: f"upgrade failed: {o.kind()}"):
         return
     resp = o.value
-    P.check(resp.status == (200 if kind == "connect" else 101), "status", "wrong status")
-    stream = resp.extensions["network_stream"]
+    P.check(resp.status == (cstatus[0] if kind == "connect" else 101), "status", "wrong status")
     sock = net.socks[0]
+    if drain:
+        # a caller that reads the (necessarily empty) body before it turns to the network stream
+        b = api.read(resp)
+        P.check(b.ok and b.value == b"", "empty-body-of-switching-response", lambda: f"body read: {b.kind()} {b.value!r}")
+        P.check(sock.open, "connection-stays-open-while-the-response-is-open", "socket closed although the response is still open")
+        P.cover("body-drained-first")
+    stream = resp.extensions["network_stream"]
     if sock.consumed > head_len:
         P.cover("trailing-captured")
     got = b""
